@@ -32,3 +32,15 @@ P['C16'] = dict(
         dict(name='topic_filter_A', tu=_utf8, entry='h_topic_filter', engine='A', twin='topic_filter_B', defs_quick={'VK_N': 2}, defs_thorough={'VK_N': 3}, unwind=6, timeout=1500),
         dict(name='shared_A', tu=_utf8, entry='h_shared', engine='A', twin='shared_B', defs={'VK_N': 2, 'VK_SHARE_FREE': 1}, unwind=10, timeout=2400, tiers=['thorough']),
     ])
+
+_dh = 'harness/d_hostile.cpp'
+def _dh_jobs():
+    out = []
+    for e in ['puback', 'pubrec', 'pubrel', 'pubcomp', 'suback', 'unsuback', 'disconnect', 'auth', 'connack', 'publish', 'fixed_header']:
+        out.append(dict(name='dec_' + e, tu=_dh, entry='h_' + e, engine='B', defs_quick={'VK_BYTES': 6}, defs_thorough={'VK_BYTES': 9}, reach=['accepted', 'rejected']))
+    return out
+P['C19'] = dict(
+    level_text='Every decoder (and, in the whole-client harnesses, the framing code of assemble_op and connect_op) is executed on every byte string up to the stated length held in an exact-size allocation; the solver decides for every access whether it can leave its allocation, and whether the library can accept bytes the reference decoder rejects.',
+    level_note='Bounds: packet bodies <= 6 (quick) / 9 (thorough) bytes per decoder. UTF-8 content of received strings and at-most-once rules for properties are not part of the oracle (the reference is lenient there).',
+    assumptions=['reference decoder harness/ref_mqtt.hpp written by hand from MQTT 5.0 sections 2.1-2.2, 3.1-3.15'],
+    jobs=_dh_jobs())
